@@ -2,6 +2,7 @@ import MtailVerif.Proofs.Lexer
 import MtailVerif.Proofs.CompilePipeline
 import MtailVerif.Generated.Grammar
 import MtailVerif.Generated.Compile
+import MtailVerif.Proofs.Skeletons
 /-! C03 — the compiler terminates on any source text and never crashes.
 
 What a theorem can carry here:
@@ -104,5 +105,17 @@ def rs (s : String) : List R :=
     regular expression gives DIV, then (in regex mode) INVALID, then EOF. -/
 #guard ((drive (fun _ => false) 9 [] (rs "c++ # x") {}).1.map (·.kind)) == [.EOF, .INC, .ID]
 #guard ((drive headIsDiv 9 [] (rs "/ab") {}).1.map (fun t => (t.kind, t.err))) == [(.EOF, 0), (.INVALID, 3), (.DIV, 0)]
+
+/-! ### regenerated control skeletons (written by lib/wire_skeletons.py) -/
+/-- Obligations over regenerated facts: the functions this property's model stands for have the
+    control skeleton the model was written against (`Proofs/Skeletons.lean`, one `rfl` per function
+    or clause; DESIGN.md §11.6a) -/
+theorem symbols_skeletons : Skeletons.SymbolsShape := Skeletons.symbols_shape
+theorem lex_skeletons : Skeletons.LexShape := Skeletons.lex_shape
+theorem codegenBefore_skeletons : Skeletons.CodegenBeforeShape := Skeletons.codegenBefore_shape
+theorem codegenAfter_skeletons : Skeletons.CodegenAfterShape := Skeletons.codegenAfter_shape
+theorem checkerBefore_skeletons : Skeletons.CheckerBeforeShape := Skeletons.checkerBefore_shape
+theorem checkerAfter_skeletons : Skeletons.CheckerAfterShape := Skeletons.checkerAfter_shape
+theorem patternEval_skeletons : Skeletons.PatternEvalShape := Skeletons.patternEval_shape
 
 end MtailVerif.C03
